@@ -132,8 +132,9 @@ def _ops_ok(ops) -> bool:
 
     if not agree():
         return False
+    themes = [Theme(dict(t), inherit=False) for t in _THEMES]     # the SAME Theme objects are pushed again and again
     for kind, ti, inherit in ops:
-        theme = Theme(dict(_THEMES[ti]), inherit=False)
+        theme = themes[ti]
         if kind == 0:
             console.push_theme(theme, inherit=inherit)
             stack.append({**stack[-1], **_THEMES[ti]} if inherit else dict(_THEMES[ti]))
@@ -218,3 +219,20 @@ def _pre_cfg(i: int, vi: bool, c: int, b: int, link: bool) -> bool:
     outside="links containing '%' (configparser interpolation), names outside [a-z.]")
 def c20_cfg(i: int, vi: bool, c: int, b: int, link: bool) -> bool:
     return native(_cfg_ok, pin(i, 0, 13), pinb(vi), pin(c, 0, len(_COLS) - 1), pin(b, 0, len(_COLS) - 1), pinb(link))
+
+
+@symx("C20-console-repush-4ops", timeout=900, kind="P", functions=F_CON,
+      bounds="real Console, every sequence of 4 operations from {push(theme 0|1|2, inherit=True), push(theme 0|1, inherit=False), pop} "
+             "re-using the same three Theme objects (solver-enumerated, native), lookups after every step against the reference "
+             "list-of-dicts model: pushing a theme object a second time over a different stack top resolves like a first push")
+def c20_repush(e):
+    ops = []
+    for i in range(4):
+        k = int(e.mk("op%d" % i, 0, 5))
+        if k <= 2:
+            ops.append((0, k, True))
+        elif k <= 4:
+            ops.append((0, k - 3, False))
+        else:
+            ops.append((1, 0, True))
+    return _ops_ok(ops)
